@@ -2,10 +2,11 @@
 """What the checks report on an unpatched checkout of /repo HEAD (to subtract when judging seeded changes)."""
 import json, os, subprocess, sys
 from pathlib import Path
-head = subprocess.run(["git", "-C", "/repo", "rev-parse", "HEAD"], capture_output=True, text=True).stdout.strip()
-wt = Path("/tmp/vwt/baseline"); wt.parent.mkdir(exist_ok=True)
+rev = sys.argv[1] if len(sys.argv) > 1 else "HEAD"
+head = subprocess.run(["git", "-C", "/repo", "rev-parse", rev], capture_output=True, text=True).stdout.strip()
+wt = Path("/tmp/vwt/baseline_" + head[:10]); wt.parent.mkdir(exist_ok=True)
 subprocess.run(["git", "-C", "/repo", "worktree", "remove", "--force", str(wt)], capture_output=True)
-subprocess.run(["git", "-C", "/repo", "worktree", "add", "-q", "--detach", str(wt), "HEAD"], check=True)
+subprocess.run(["git", "-C", "/repo", "worktree", "add", "-q", "--detach", str(wt), head], check=True)
 out = {}
 try:
     for pid in [f"C{i:02d}" for i in range(1, 21)]:
